@@ -1,6 +1,7 @@
 SPECIFICATION Spec
 CONSTANTS Family = "findlist"
           MaxEdits = 2
+          UnivKinds = {"noisy"}
           WithGt = TRUE
 INVARIANT UnfoldIsDenote
 INVARIANT ErrorOnlyWhenDenoted
